@@ -245,7 +245,10 @@ fn get_new_path<L: Locale>(
     });
     location.hash.with_untracked(|hash| {
         if !hash.is_empty() {
-            new_path.push('#');
+            // in the browser `Location::hash` already starts with '#'
+            if !hash.starts_with('#') {
+                new_path.push('#');
+            }
             new_path.push_str(hash);
         }
     });
